@@ -39,8 +39,10 @@ def make_classes(log, now_us, tid):
             log(("start", self.lbl, now_us()))
             try:
                 super().invoke()
-            finally:
-                log(("fin", self.lbl))
+            except BaseException:
+                log(("raised", self.lbl))
+                raise
+            log(("fin", self.lbl))
 
         def is_cancelled(self):
             r = super().is_cancelled()
@@ -155,16 +157,28 @@ class Interp:
         act.lbl = lbl
         return act
 
-    def run(self, ops):
+    def run(self, ops, top=False):
+        from fw import InjectedError
+
         for op in ops:
             s = self.get_sched()
             k = op[0]
-            if k == "sched":
-                self.handles[op[1]] = s.schedule(self.action(op[1], op[2]))
-            elif k == "rel":
-                self.handles[op[1]] = s.schedule_relative(timedelta(microseconds=op[2]), self.action(op[1], op[3]))
-            elif k == "abs":
-                self.handles[op[1]] = s.schedule_absolute(EPOCH + timedelta(microseconds=op[2]), self.action(op[1], op[3]))
+            if k in ("sched", "rel", "abs"):
+                try:
+                    if k == "sched":
+                        self.handles[op[1]] = s.schedule(self.action(op[1], op[2]))
+                    elif k == "rel":
+                        self.handles[op[1]] = s.schedule_relative(timedelta(microseconds=op[2]), self.action(op[1], op[3]))
+                    else:
+                        self.handles[op[1]] = s.schedule_absolute(EPOCH + timedelta(microseconds=op[2]), self.action(op[1], op[3]))
+                except InjectedError:
+                    # an action raised: the exception leaves Trampoline.run and reaches the schedule* call that started the drain
+                    # loop; only the top-level program catches it (inside an action it keeps propagating)
+                    if not top:
+                        raise
+            elif k == "raise":
+                if not top:
+                    raise InjectedError("boom")
             elif k == "cancel":
                 self.log(("cancel", op[1]))
                 h = self.handles.get(op[1])
@@ -220,7 +234,7 @@ def run_single(case):
             clock[0] += d
 
         it = Interp(lambda: sched, events.append, tick)
-        it.run(case["prog"])
+        it.run(case["prog"], top=True)
         tramp = sched.get_trampoline()
         idle = tramp.__dict__.get("idle_")
         qlen = len(tramp._queue.items)
@@ -230,7 +244,7 @@ def run_single(case):
             out.append(["sched", e[1], e[2], e[3]])
         elif e[0] == "start":
             out.append(["start", e[1], e[2]])
-        elif e[0] in ("fin", "skip", "cancel"):
+        elif e[0] in ("fin", "skip", "cancel", "raised"):
             out.append([e[0], e[1]])
         elif e[0] == "wait":
             out.append(["wait", e[1]])
@@ -241,6 +255,7 @@ def oracle_events(events, abs_free_required=True):
     """the property's own oracle on one thread's observable events"""
     open_ = None
     cancelled = set()
+    discarded = set()
     sched = {}
     order = []
     started = []
@@ -254,6 +269,8 @@ def oracle_events(events, abs_free_required=True):
         elif k == "start":
             if open_ is not None:
                 return f"action {e[1]} started while action {open_} is running (nested)"
+            if e[1] in discarded:
+                return f"action {e[1]} was pending when an action raised (the trampoline is reset: queue cleared) but ran afterwards"
             if e[1] in cancelled:
                 return f"action {e[1]} started after it was cancelled"
             if e[1] not in sched:
@@ -265,10 +282,17 @@ def oracle_events(events, abs_free_required=True):
                 return f"action {e[1]} started twice"
             open_ = e[1]
             started.append((e[1], due, sched[e[1]][2]))
-        elif k == "fin":
+        elif k in ("fin", "raised"):
             if open_ != e[1]:
-                return f"fin {e[1]} while {open_} is open"
+                return f"{k} {e[1]} while {open_} is open"
             open_ = None
+            if k == "raised":
+                # the exception resets the trampoline: everything that was pending is discarded and must never run later
+                started_ids = {s[0] for s in started}
+                for lbl in list(sched):
+                    if lbl not in started_ids:
+                        cancelled.add(lbl)
+                        discarded.add(lbl)
     if open_ is not None:
         return f"action {open_} never returned"
     for a in range(len(started)):
@@ -288,6 +312,13 @@ def all_run(events):
     cancelled = {e[1] for e in events if e[0] == "cancel"}
     started = {e[1] for e in events if e[0] == "start"}
     skipped = {e[1] for e in events if e[0] == "skip"}
+    # what is pending when an action raises is discarded by design
+    seen = []
+    for e in events:
+        if e[0] == "sched":
+            seen.append(e[1])
+        elif e[0] == "raised":
+            skipped |= {x for x in seen if x not in started}
     for e in events:
         if e[0] == "sched" and e[1] not in started and e[1] not in skipped:
             return f"action {e[1]} was scheduled, never cancelled-and-skipped, and never ran" if e[1] not in cancelled else f"action {e[1]} (cancelled) was never taken out of the queue"
@@ -318,7 +349,7 @@ def run_threads(cfg, preempt=None, opcode=False):
                     ctl.ev("tick", d)
                     ctl.advance(d)
 
-                Interp(get, lambda e: ctl.ev(*e), tick).run(prog)
+                Interp(get, lambda e: ctl.ev(*e), tick).run(prog, top=True)
             return f
 
         for p in cfg["progs"]:
@@ -341,7 +372,9 @@ def labels_of(res):
         if t is None:
             continue
         if k == "now_read":
-            if t not in open_sec and t not in first_read:
+            if t in open_sec:
+                open_sec[t].setdefault("now", (pos, e[2]))
+            elif t not in first_read:
                 first_read[t] = (pos, e[2])
             continue
         if k == "acq" and e[2] == "tr":
@@ -361,17 +394,22 @@ def labels_of(res):
                 wait = res["events"][pos][3]  # timeout in us
                 wait = None if wait is None else ("rel", wait)
             first_read.pop(t, None)
-            out.append((s["start"], t, ["sec", enq[0] if enq else None, deq, sets[-1] if sets else None, clr[0] if clr else None, wait, pos]))
+            if wait is not None and "now" in s:
+                wait = ("abs", s["now"][1] + wait[1])  # `seconds` was computed from this clock read
+            # a locked section is linearised at its (first) clock read, the one access a tick of another thread can race with
+            at = s["now"][0] if "now" in s and not s.get("after_wait") else s["start"]
+            out.append((at, t, ["sec", enq[0] if enq else None, deq, sets[-1] if sets else None, clr[0] if clr else None, wait, pos]))
             if k == "wait":
                 open_sec[t] = {"start": pos, "evs": [], "after_wait": True}
             continue
         if k == "woke" and t in open_sec:
+            out.append((pos, t, ["woke"]))
             continue
         s = open_sec.get(t)
         if s is not None:
             if k in GUARDED:
                 s["evs"].append(e)
-            elif k in ("sched", "start", "fin", "skip", "cancel", "tick"):
+            elif k in ("sched", "start", "fin", "skip", "cancel", "tick", "raised"):
                 problems.append(f"{k} inside the trampoline lock")
             continue
         if k in GUARDED and not (k == "pq_len" and False):
@@ -380,7 +418,7 @@ def labels_of(res):
             # the model's `sched` step is the moment `schedule*` reads the clock to compute dt, not the item's construction
             rp, rc = first_read.pop(t, (pos, e[4]))
             out.append((rp, t, ["sched", e[2], e[3], rc]))
-        elif k in ("start", "fin", "skip", "cancel", "tick"):
+        elif k in ("start", "fin", "skip", "cancel", "tick", "raised"):
             first_read.pop(t, None)
             out.append((pos, t, [k, e[2]]))
     for t in open_sec:
@@ -406,11 +444,11 @@ def labels_of(res):
                     continue
                 problems.append("activity after a condition wait inside the same locked block")
             if wait is not None:
-                wait = clock_at[endpos] + wait[1]
+                wait = wait[1] if wait[0] == "abs" else clock_at[endpos] + wait[1]
                 skip_next_empty.add(t)
-            trace.append([t, ["sec", l[1], l[2], l[3], l[4], wait]])
+            trace.append([t, ["sec", l[1], l[2], l[3], l[4], wait], clock_at[pos]])
         else:
-            trace.append([t, l])
+            trace.append([t, l, clock_at[pos]])
     return trace, problems
 
 
@@ -429,7 +467,7 @@ def per_thread_events(res):
         elif k == "start":
             per[t].append(["start", e[2], e[3]])
             ran_on[e[2]] = t
-        elif k in ("fin", "skip", "cancel"):
+        elif k in ("fin", "skip", "cancel", "raised"):
             per[t].append([k, e[2]])
     return per, sched_on, ran_on
 
